@@ -149,6 +149,17 @@ def ng_cases():
     out.append(spec("ng-and-greedy-alt", [tok("X", cat(alt(cat(lit("a"), starng(anyc())), cat(lit("c"), star(anyc()))), lit("b")))]))
     out.append(spec("ng-comment-and-div", [tok("DIV", lit("/")), tok("STAR", lit("*")), frag(cat(lit("/*"), starng(anyc()), lit("*/")), ["discard"]),
                                           tok("ID", plus(cls(["a-z"])))]))
+    # the non-greedy rule also carries a mode action (its accepting row has the mode action first, the terminal action last)
+    out.append(spec("ng-inmode-pop-starng", [tok("P0", lit("p")), tok("O", lit("<"), ["push", "M"]), frag(lit(" "), ["discard"])],
+                    modes=[("M", [tok("COMMENT", cat(lit("!--"), starng(cls(["a-z", " ", "-"])), lit("--")), ["pop"]),
+                                  tok("PI", cat(lit("?"), plusng(cls(["a-z", "?", ">"])), lit("?>")), ["pop"]), tok("P1", lit("p"))])]))
+    out.append(spec("ng-inmode-push-starng", [tok("X", cat(lit("/*"), starng(anyc()), lit("*/")), ["push", "M"]), tok("P0", lit("p")), frag(lit(" "), ["discard"])],
+                    modes=[("M", [tok("C", lit(")"), ["pop"]), tok("P1", lit("p")), tok("S", lit("*")), tok("D", lit("/"))])]))
+    out.append(spec("ng-inmode-frag-pop-discard", [tok("P0", lit("p")), tok("O", lit("("), ["push", "M"])],
+                    modes=[("M", [frag(cat(lit("#"), starng(cls(["a-z", "#", ";"])), lit(";")), ["pop"], ["discard"]), tok("P1", lit("p"))])]))
+    out.append(spec("ng-inmode-pop-push-plusng", [tok("P0", lit("p")), tok("O", lit("("), ["push", "M"])],
+                    modes=[("M", [tok("SW", cat(lit("["), plusng(cls(["a-b", "]"])), lit("]]")), ["pop"], ["push", "N"]), tok("P1", lit("p"))]),
+                           ("N", [tok("P2", lit("p")), tok("C2", lit(")"), ["pop"])])]))
     return out
 
 
